@@ -17,6 +17,10 @@ def run(chk, tier, scale=1.0):
     # directed scripts around a reload that removes a service which still owes an answer
     for rs in vcommon.pmap(pcommon.script_worker, pcommon.reload_jobs(b, chk.seed, PROPS, int((160 if tier == "quick" else 4000) * scale), tag="rls5")):
         prun.fold(chk, "C05", rs)
+    # the module interface no shipped module uses (set address / host name / user name, challenge, kill, accept, holds ...), driven
+    # through the fixture module site_api and compared line for line with a model of the core (lib/sitemodel.py)
+    import sitemodel
+    sitemodel.fold_site(chk, "C05", tier, scale, 1021, ('C05',))
     chk.rule = ("random histories weighted towards replies: OK / OK <acct[:ts[:serial]]> (63/64/65-byte accounts, trailing words) / NO / AGAIN / MORE / junk / unlinked "
                 "from login, login-ipr, dronecheck and combined services in every order, texts with doubled/leading/trailing spaces, colons and %-directives, "
                 "passwords with every mode string; rules: k text = NO text byte-for-byte in the same step; R iff a login-type service awaited by this instance "
@@ -30,4 +34,7 @@ def run(chk, tier, scale=1.0):
 
 
 def replay(chk, rep):
+    if rep["witness"].get("site"):
+        import sitemodel
+        return sitemodel.replay_site(chk, rep["witness"], "C05", ('C05',))
     return prun.replay_witness(chk, rep, PROPS)
